@@ -5,10 +5,11 @@ import GrassProofs.Lemmas.BuiltinsStr
   C14 — list, map and string built-ins implement their documented semantics.
 
   Theorems about the model `Grass/Builtins.lean`.  Every theorem is stated for the full built-in
-  (argument list in, value or error class out); `sw : Sw` carries one switch per known deviation
-  of /repo from the documentation (`Sw.spec` = documented, `Sw.now` = as found); a theorem that needs
-  the documented variant of a rule says so by a hypothesis such as `sw.appendAsList = true`, all
-  others hold for both variants.  `numI n u` is the number `n` (an integer) with unit `u`.
+  (argument list in, value or error class out); `sw : Sw` carries one switch per deviation of /repo
+  from the documentation that this check found (K14a–K14d, all repaired since: `Sw.now` = the code as
+  it stands = documented, `Sw.beforeFix` = the code before the repairs); a theorem that needs the
+  documented variant of a rule says so by a hypothesis such as `sw.appendAsList = true` and has a
+  `…_now` corollary without it; all others hold for both variants.  `numI n u` is the number `n` (an integer) with unit `u`.
   The `law…` predicates are the per-input predicates the check evaluates on grass's own answers
   (`blt law …`); each theorem ends by stating that the model's answers satisfy them.
 
@@ -35,6 +36,13 @@ theorem C14_length_append (sw : Sw) (h : sw.appendAsList = true) (l v : Value) :
   · rw [lengthF_one, elems_mkList, appendParts_fst sw h]; simp
   · simp [lawLengthAppend, natOf_natV]
 
+
+/-- the code as it stands, for every `l` (lists, maps, argument lists, single values) -/
+theorem C14_length_append_now (l v : Value) :
+    ∃ r, appendF Sw.now [l, v] = .ok r ∧ elems r = elems l ++ [v] ∧
+      lengthF [r] = .ok (natV ((elems l).length + 1)) :=
+  let ⟨r, h1, h2, h3, _⟩ := C14_length_append Sw.now rfl l v
+  ⟨r, h1, h2, h3⟩
 
 /-! ## nth / set-nth -/
 
@@ -118,13 +126,21 @@ theorem C14_nth_zero_err (sw : Sw) (l : Value) (u : U) : nthF sw [l, numI 0 u] =
 theorem C14_nth_range_err (sw : Sw) (l : Value) (n : Int) (u : U) (h : (elems l).length < n.natAbs) :
     nthF sw [l, numI n u] = .error .indexRange := by
   have h0 : n ≠ 0 := by omega
-  simp [nthF, numI, nthIndex, isZero_intCast n h0, tooBig_intCast, h]
+  simp [nthF, numI, nthIndex_int_range sw _ n h0 h]
 
 /-- a non-integer index within the range is rejected as such -/
 theorem C14_nth_nonint_err (sw : Sw) (l : Value) (q : Rat) (u : U)
-    (hz : isZero q = false) (hr : tooBig sw.rangeByInt q (elems l).length = false) (hi : asInt q = none) :
+    (hz : isZero q = false) (hr : sw.rangeByInt = false → ¬ (((elems l).length : Rat) < q.abs)) (hi : asInt q = none) :
     nthF sw [l, .num (.fin q) u] = .error .notInt := by
-  simp [nthF, nthIndex, hz, hr, hi]
+  cases hb : sw.rangeByInt with
+  | true => simp [nthF, nthIndex, hz, hi, hb]
+  | false => simp [nthF, nthIndex, hz, hi, hb, hr hb]
+
+/-- the code as it stands: a non-integer index is rejected as such whatever its size (the integer
+    check comes before the range check, as in `set-nth`) -/
+theorem C14_nth_nonint_err_now (l : Value) (q : Rat) (u : U) (hz : isZero q = false) (hi : asInt q = none) :
+    nthF Sw.now [l, .num (.fin q) u] = .error .notInt :=
+  C14_nth_nonint_err Sw.now l q u hz (fun h => by cases h) hi
 
 theorem C14_nth_not_number_err (sw : Sw) (l : Value) (s : List Char) (q : Bool) :
     nthF sw [l, .str s q] = .error .notNumber := rfl
@@ -154,7 +170,8 @@ theorem C14_set_nth_nonint_err (sw : Sw) (l v : Value) (q : Rat) (u : U)
   simp [setNthIndex, hz, hi]
 
 
-example : isZero (3/2) = false ∧ tooBig true (3/2) 3 = false ∧ tooBig false (3/2) 3 = false ∧ asInt (3/2) = none := by
+example : isZero (3/2) = false ∧ ¬ (((3 : Nat) : Rat) < (3/2 : Rat).abs) ∧ asInt (3/2) = none ∧
+    isZero (7/2) = false ∧ asInt (7/2) = none := by
   decide +kernel
 
 /-! ## join -/
@@ -190,6 +207,12 @@ theorem C14_length_join (sw : Sw) (h : sw.joinArgAsList = true) (a b : Value) :
   · rw [lengthF_one, elems_mkList, joinParts_fst sw h, joinParts_fst sw h, List.length_append]
   · simp [lawLengthJoin, natOf_natV]
 
+theorem C14_length_join_now (a b : Value) :
+    ∃ r, joinF Sw.now [a, b] = .ok r ∧ elems r = elems a ++ elems b ∧
+      lengthF [r] = .ok (natV ((elems a).length + (elems b).length)) :=
+  let ⟨r, h1, h2, h3, _⟩ := C14_length_join Sw.now rfl a b
+  ⟨r, h1, h2, h3⟩
+
 theorem separatorF_mkList (es : List Value) (s : Sep) (b : Bool) :
     separatorF [mkList es s b] = .ok (.str (sepName s) false) := rfl
 
@@ -202,6 +225,11 @@ theorem C14_join_separator_rule (sw : Sw) (h : sw.joinArgAsList = true) (a b : V
   · rw [joinF_two, joinParts_snd sw h a, joinParts_snd sw h b]
     rfl
   · simp [lawJoinSep, sameV]
+
+theorem C14_join_separator_rule_now (a b : Value) :
+    ∃ es, joinF Sw.now [a, b] = .ok (mkList es (joinSepRule (argSep a) (argSep b) none) (argBr a)) :=
+  let ⟨es, h, _⟩ := C14_join_separator_rule Sw.now rfl a b
+  ⟨es, h⟩
 
 /-- `$separator: auto` is the same as omitting it -/
 theorem C14_join_separator_auto (sw : Sw) (a b : Value) (q : Bool) :
@@ -252,6 +280,10 @@ theorem C14_append_separator (sw : Sw) (h : sw.appendAsList = true) (l v : Value
 
 example : Sw.spec.appendAsList = true ∧ Sw.spec.joinArgAsList = true ∧ Sw.spec.rangeByInt = true ∧ Sw.spec.setArity = true :=
   ⟨rfl, rfl, rfl, rfl⟩
+
+theorem C14_append_separator_now (l v : Value) :
+    appendF Sw.now [l, v] = .ok (mkList (elems l ++ [v]) (if argSep l = .undecided then .space else argSep l) (argBr l)) :=
+  (C14_append_separator Sw.now rfl l v).1
 
 theorem C14_join_bad_separator_err (sw : Sw) (a b : Value) (q : Bool) :
     joinF sw [a, b, .str "foo".toList q] = .error .badSeparator := by
@@ -580,8 +612,7 @@ theorem last2 (ks : List Value) (k v : Value) :
 theorem mapSetF_nested (sw : Sw) (m : VPairs) (ks : List Value) (k v : Value) :
     mapSetF sw (.map m :: (ks ++ [k, v])) = .ok (.map (setNested sw ks m k v)) := by
   obtain ⟨h1, h2, h3⟩ := last2 ks k v
-  have hl : ¬ ((ks ++ [k, v]).length < 2) := by simp
-  simp only [mapSetF, assertMap, tryMap, hl, decide_false, Bool.and_false, Bool.false_eq_true, if_false]
+  simp only [mapSetF, assertMap, tryMap]
   split
   · rename_i h; simp at h
   · rename_i h; have := congrArg List.length h; simp at this
@@ -607,7 +638,7 @@ example : ∀ x, x ∈ [Value.str "a".toList false, Value.null] → veq Grass.Va
   rcases hx with rfl | rfl <;> simp [veq]
 
 /-- `map-get(map-remove(m, k), k) = null` and the key is gone, when removal is by `==`
-    (`sw.eq.removeEq`; as found it is by `not_equals`, C09's known finding K4) -/
+    (`sw.eq.removeEq`; before C09's K4 was repaired it was by `not_equals`) -/
 theorem C14_remove_get (sw : Sw) (h : sw.eq.removeEq = true) (m : VPairs) (k : Value) :
     ∃ r, mapRemoveF sw [.map m, k] = .ok r ∧ mapGetF sw [r, k] = .ok .null ∧
       mapHasKeyF sw [r, k] = .ok (.bool false) ∧ lawRemoveGet .null (.bool false) = true ∧
@@ -673,10 +704,23 @@ theorem C14_map_missing_err (sw : Sw) (m : Value) :
       (∀ ps, deepMergeF sw [.map ps] = .error .missingArg) := by
   simp [mapGetF, mapHasKeyF, mapMergeF, deepMergeF, assertMap, tryMap]
 
-/-- documented arity of `map.set`: at least map, key and value -/
-theorem C14_map_set_arity_err (sw : Sw) (h : sw.setArity = true) (m v : Value) :
-    mapSetF sw [m, v] = .error .missingArg ∧ mapSetF sw [m] = .error .missingArg := by
-  simp [mapSetF, h]
+/-- arity of `map.set`: after the map, a key and a value are required -/
+theorem C14_map_set_arity_err (sw : Sw) (h : sw.setArity = true) (ps : VPairs) (v : Value) (n : Num) (u : U) :
+    mapSetF sw [.map ps] = .error .noKey ∧ mapSetF sw [.map ps, v] = .error .noValue ∧
+    mapSetF sw [] = .error .missingArg ∧ mapSetF sw [.num n u, v] = .error .notMap := by
+  simp [mapSetF, assertMap, tryMap, h]
+
+theorem C14_map_set_arity_err_now (ps : VPairs) (v : Value) :
+    mapSetF Sw.now [.map ps] = .error .noKey ∧ mapSetF Sw.now [.map ps, v] = .error .noValue :=
+  let ⟨h1, h2, _, _⟩ := C14_map_set_arity_err Sw.now rfl ps v .nan .none
+  ⟨h1, h2⟩
+
+/-- the code as it stands removes by `==` -/
+theorem C14_remove_get_now (m : VPairs) (k : Value) :
+    ∃ r, mapRemoveF Sw.now [.map m, k] = .ok r ∧ mapGetF Sw.now [r, k] = .ok .null ∧
+      mapHasKeyF Sw.now [r, k] = .ok (.bool false) :=
+  let ⟨r, h1, h2, h3, _⟩ := C14_remove_get Sw.now rfl m k
+  ⟨r, h1, h2, h3⟩
 
 /-- `list-separator` / `is-bracketed` read the list's own separator (`space` when it has none) and
     bracket flag; a map or argument list is an unbracketed comma list, any other value an unbracketed
@@ -742,7 +786,7 @@ theorem C14_deep_remove_get (sw : Sw) (h : sw.eq.removeEq = true) (m : VPairs) (
   (model = the code, function by function) and, for `index`, through C09.
 -/
 
-/-! ## as-found witnesses (`Sw.now`): the code deviates from the documentation -/
+/-! ## witnesses for the code before the repairs (`Sw.beforeFix`) against the code as it stands (`Sw.now`) -/
 
 def isErr (r : R) (e : Err) : Bool := match r with | .error x => x == e | _ => false
 def isOk (r : R) (v : Value) : Bool := match r with | .ok x => sameV x v | _ => false
@@ -750,32 +794,35 @@ def isOk (r : R) (v : Value) : Bool := match r with | .ok x => sameV x v | _ => 
 def m2 : Value := .map (.cons (.str "a".toList false) (natV 1) (.cons (.str "c".toList false) (natV 2) .nil))
 def l3 : Value := mkList [.str "a".toList false, .str "b".toList false, .str "c".toList false] .space false
 
-/-- K14a: as found, `length(append((a: 1, c: 2), b))` is 2, not 3 -/
-theorem C14_asFound_append_map :
-    (match appendF Sw.now [m2, .null] with | .ok r => lengthF [r] | e => e) = .ok (natV 2) ∧
-    (match appendF Sw.spec [m2, .null] with | .ok r => lengthF [r] | e => e) = .ok (natV 3) := by
+/-- K14a (repaired in 6e994a1): before, `length(append((a: 1, c: 2), b))` was 2; now 3 -/
+theorem C14_asFound_before_fix_append_map :
+    (match appendF Sw.beforeFix [m2, .null] with | .ok r => lengthF [r] | e => e) = .ok (natV 2) ∧
+    (match appendF Sw.now [m2, .null] with | .ok r => lengthF [r] | e => e) = .ok (natV 3) := by
   constructor <;> rfl
 
-/-- K14b: as found, `length(join(args(1, 2), (3, 4)))` is 3, not 4 -/
-theorem C14_asFound_join_arglist :
-    (match joinF Sw.now [.arglist (.cons .null (.cons .null .nil)) .nil .comma, mkList [.null, .null] .comma false] with
+/-- K14b (repaired in 30ed358): before, `length(join(args(1, 2), (3, 4)))` was 3; now 4 -/
+theorem C14_asFound_before_fix_join_arglist :
+    (match joinF Sw.beforeFix [.arglist (.cons .null (.cons .null .nil)) .nil .comma, mkList [.null, .null] .comma false] with
       | .ok r => lengthF [r] | e => e) = .ok (natV 3) ∧
-    (match joinF Sw.spec [.arglist (.cons .null (.cons .null .nil)) .nil .comma, mkList [.null, .null] .comma false] with
+    (match joinF Sw.now [.arglist (.cons .null (.cons .null .nil)) .nil .comma, mkList [.null, .null] .comma false] with
       | .ok r => lengthF [r] | e => e) = .ok (natV 4) := by
   constructor <;> rfl
 
-/-- K14c: as found, `nth(a b c, 3.000000000001)` is an index error although the index is the integer 3
-    by the documented tolerance; documented: `c` -/
-theorem C14_asFound_nth_fuzzy :
-    isErr (nthF Sw.now [l3, .num (.fin (3000000000001 / 1000000000000)) .none]) .indexRange = true ∧
-    isOk (nthF Sw.spec [l3, .num (.fin (3000000000001 / 1000000000000)) .none]) (.str "c".toList false) = true := by
+/-- K14c (repaired in ca51d14): before, `nth(a b c, 3.000000000001)` was an index error although the
+    index is the integer 3 by the documented tolerance, and `nth(a b c, 3.5)` an index error rather
+    than "not an int"; now `c` and "not an int" -/
+theorem C14_asFound_before_fix_nth_fuzzy :
+    isErr (nthF Sw.beforeFix [l3, .num (.fin (3000000000001 / 1000000000000)) .none]) .indexRange = true ∧
+    isOk (nthF Sw.now [l3, .num (.fin (3000000000001 / 1000000000000)) .none]) (.str "c".toList false) = true ∧
+    isErr (nthF Sw.beforeFix [l3, .num (.fin (7 / 2)) .none]) .indexRange = true ∧
+    isErr (nthF Sw.now [l3, .num (.fin (7 / 2)) .none]) .notInt = true := by
   decide +kernel
 
-/-- K14d: as found, `map.set((a: 1), 2)` answers `(a: 1, null: 2)` instead of failing -/
-theorem C14_asFound_map_set_arity :
-    isOk (mapSetF Sw.now [.map (.cons (.str "a".toList false) (natV 1) .nil), natV 2])
+/-- K14d (repaired in 1b37b59): before, `map.set((a: 1), 2)` answered `(a: 1, null: 2)`; now it fails -/
+theorem C14_asFound_before_fix_map_set_arity :
+    isOk (mapSetF Sw.beforeFix [.map (.cons (.str "a".toList false) (natV 1) .nil), natV 2])
       (.map (.cons (.str "a".toList false) (natV 1) (.cons .null (natV 2) .nil))) = true ∧
-    isErr (mapSetF Sw.spec [.map (.cons (.str "a".toList false) (natV 1) .nil), natV 2]) .missingArg = true := by
+    isErr (mapSetF Sw.now [.map (.cons (.str "a".toList false) (natV 1) .nil), natV 2]) .noValue = true := by
   decide +kernel
 
 end Grass.Builtins
